@@ -724,6 +724,14 @@ pub fn file_menu(quick: bool) -> Vec<(String, Vec<u8>)> {
             v.push((format!("{}({})", w.descr, s.name), b));
         }
     }
+    // explicit entries: a bare IDAT run at offset 0 (first chunk of the container is an empty literal),
+    // streams that are larger than their plaintext (file larger than its expanded form)
+    for w in wr.iter().filter(|w| w.descr.starts_with("bare IDAT run")) {
+        v.push((format!("{}(stored1100) at offset 0", w.descr), (w.build)(&streams[5])));
+    }
+    for s in streams.iter().filter(|s| s.name == "noise-as-fixed-literals" || s.name == "forty-stored-blocks") {
+        v.push((format!("zlib 789c({})", s.name), (wr[2].build)(s)));
+    }
     // multi-stream file
     let mut m = b"head".to_vec();
     m.extend_from_slice(&(wr[2].build)(&streams[0]));
